@@ -6,6 +6,7 @@ import (
 	stdtls "crypto/tls"
 	"fmt"
 	"os"
+	"reflect"
 	"strings"
 
 	tls "github.com/refraction-networking/utls"
@@ -641,6 +642,143 @@ func c23Pump(bound int, free bool) *explore.Scenario {
 	}
 }
 
+// c23SecondConnection — two connections in sequence through one ClientSessionCache with a spec that
+// carries pre_shared_key, the application having asked for session events (QUICConfig.EnableSessionEvents)
+// or not, driven by the ordinary pump: drain NextEvent until QUICNoEvent, hand the data to the peer, repeat.
+// The server issues a ticket after the first handshake. Both connections must complete through that pump.
+func c23SecondConnection() *explore.Scenario {
+	specs := c23Specs()
+	return &explore.Scenario{
+		Name:    "second-connection-through-a-session-cache",
+		Workers: 1,
+		Run: func(x *explore.X) (r explore.Result) {
+			sp := specs[x.Choose("spec", len(specs))]
+			events := x.Choose("EnableSessionEvents", 2) == 1
+			what := fmt.Sprintf("spec=%s+pre_shared_key EnableSessionEvents=%v", sp.name, events)
+			cache := tls.NewLRUClientSessionCache(4)
+			scfg := stdServerConfig()
+			scfg.MinVersion = stdtls.VersionTLS13
+			scfg.NextProtos = []string{"h3"}
+			var key [32]byte
+			copy(key[:], "verif quic ticket key 0123456789")
+			scfg.SetSessionTicketKeys([][32]byte{key})
+			serverParams := []byte{0x04, 0x04, 0x80, 0x10, 0x00, 0x00, 0x0f, 0x00}
+			connect := func(k int) (done bool, resumed bool, log []string, pm string) {
+				ccfg := peer.ClientConfig("example.com")
+				ccfg.MinVersion = tls.VersionTLS13
+				ccfg.NextProtos = []string{"h3"}
+				ccfg.ClientSessionCache = cache
+				ccfg.OmitEmptyPsk = true
+				srv := stdtls.QUICServer(&stdtls.QUICConfig{TLSConfig: scfg.Clone()})
+				srv.SetTransportParameters(serverParams)
+				defer srv.Close()
+				q := tls.UQUICClient(&tls.QUICConfig{TLSConfig: ccfg, EnableSessionEvents: events}, tls.HelloCustom)
+				defer q.Close()
+				pm = catch(func() {
+					spec := sp.mk()
+					spec.Extensions = append(spec.Extensions, &tls.UtlsPreSharedKeyExtension{})
+					hasModes := false
+					for _, e := range spec.Extensions {
+						if _, ok := e.(*tls.PSKKeyExchangeModesExtension); ok {
+							hasModes = true
+						}
+					}
+					if !hasModes {
+						spec.Extensions = append([]tls.TLSExtension{&tls.PSKKeyExchangeModesExtension{Modes: []uint8{tls.PskModeDHE}}}, spec.Extensions...)
+					}
+					if err := q.ApplyPreset(spec); err != nil {
+						log = append(log, "preset:"+err.Error())
+						return
+					}
+					if err := srv.Start(context.Background()); err != nil {
+						log = append(log, "srv.Start:"+err.Error())
+						return
+					}
+					if err := q.Start(context.Background()); err != nil {
+						log = append(log, "Start:"+err.Error())
+						return
+					}
+					ticketSent := false
+					for round := 0; round < 12; round++ {
+						progress := false
+						for {
+							e := q.NextEvent()
+							if e.Kind == tls.QUICNoEvent {
+								break
+							}
+							switch e.Kind {
+							case tls.QUICWriteData:
+								progress = true
+								if err := srv.HandleData(stdtls.QUICEncryptionLevel(e.Level), append([]byte(nil), e.Data...)); err != nil {
+									log = append(log, "srv.HandleData:"+err.Error())
+									return
+								}
+							case tls.QUICHandshakeDone:
+								done = true
+							case tls.QUICTransportParametersRequired:
+								q.SetTransportParameters([]byte{})
+							case tls.QUICResumeSession:
+								log = append(log, "RESUME")
+							case tls.QUICStoreSession:
+								log = append(log, "STORE")
+								// an application that asked for the events stores the session itself
+								if m := reflect.ValueOf(q).MethodByName("StoreSession"); m.IsValid() {
+									m.Call([]reflect.Value{reflect.ValueOf(e.SessionState)})
+								}
+							}
+						}
+						for {
+							e := srv.NextEvent()
+							if e.Kind == stdtls.QUICNoEvent {
+								break
+							}
+							switch e.Kind {
+							case stdtls.QUICWriteData:
+								progress = true
+								if err := q.HandleData(tls.QUICEncryptionLevel(e.Level), append([]byte(nil), e.Data...)); err != nil {
+									log = append(log, "HandleData:"+err.Error())
+									return
+								}
+							case stdtls.QUICHandshakeDone:
+								if !ticketSent {
+									ticketSent = true
+									progress = true
+									if err := srv.SendSessionTicket(stdtls.QUICSessionTicketOptions{}); err != nil {
+										log = append(log, "SendSessionTicket:"+err.Error())
+									}
+								}
+							}
+						}
+						if !progress {
+							break
+						}
+					}
+					resumed = q.ConnectionState().DidResume
+				})
+				return
+			}
+			r.Nontrivial = true
+			r.Class = what
+			for k := 1; k <= 2; k++ {
+				done, resumed, log, pm := connect(k)
+				if pm != "" {
+					r.Violate("C23|second-connection|panic", "%s connection %d: %s", what, k, truncStr(pm, 300))
+					return
+				}
+				if !done {
+					r.Violate(fmt.Sprintf("C23|second-connection|not-completed|connection=%d|events=%v", k, events), "%s: connection %d did not complete through the drain-then-deliver pump: %v", what, k, log)
+					return
+				}
+				if resumed {
+					r.Count("quic_resumed_connections", 1)
+				}
+				r.Obs += fmt.Sprintf("c%d:done,resumed=%v;", k, resumed)
+			}
+			return
+		},
+	}
+}
+
 func c23Scenarios(thorough bool) []*explore.Scenario {
 	b := 2
 	if thorough {
@@ -649,14 +787,14 @@ func c23Scenarios(thorough bool) []*explore.Scenario {
 	if os.Getenv("C23_BOUND") != "" {
 		fmt.Sscan(os.Getenv("C23_BOUND"), &b)
 	}
-	return []*explore.Scenario{c23Pump(b, false)}
+	return []*explore.Scenario{c23Pump(b, false), c23SecondConnection()}
 }
 
 func init() {
 	register(&Prop{ID: "C23", Level: "model_checking", Variant: "B", Scenarios: c23Scenarios, Sharded: true,
 		RaceScenarios: func(thorough bool) []*explore.Scenario { return []*explore.Scenario{c23Pump(0, true)} },
 		Run: func(c *explore.Check, thorough bool) {
-			c.Rule = "real UQUICConn (3 TLS 1.3-only custom specs with quic_transport_parameters) x standard-library QUIC server {default, HelloRetryRequest-forcing, requesting a client certificate} x injections {none, concurrent cancel thread, no ServerName, duplicate extension, MinVersion 1.2, pre-cancelled context, no common ALPN, untrusted certificate, corrupted server flight}, driven by a pump thread under the controlled scheduler (go/chan/select/mutex of package tls redirected): all schedules with <= 2 (4) preemptions/free switches/select alternatives x all fragmentations of server flights {whole, 1|rest, half|half, rest|1} with <= 2 (4) deviations x a reactive pump step (forward a CRYPTO chunk and feed the answer back before draining further events) at any WriteData event x one delivery to a wrong encryption level (must be refused and return) x an optional early Close in any round x an optional SetTransportParameters call after Start in any round. Oracle: every Start/HandleData/Close returns (scheduler deadlock detection), no panic; client CRYPTO data is handshake-framed, ClientHello only at Initial with empty legacy_session_id and quic_transport_parameters; per level write secret before read secret, each once; 1-RTT read secret after HandshakeDone; peer transport parameters exactly once and byte-equal; without injection both sides complete with equal state and pairwise equal secrets (HRR followed with exactly 2 hellos); with a failure injected an error is reported and Start fails on unbuildable hellos. distinct = outcome class"
+			c.Rule = "real UQUICConn (3 TLS 1.3-only custom specs with quic_transport_parameters) x standard-library QUIC server {default, HelloRetryRequest-forcing, requesting a client certificate} x injections {none, concurrent cancel thread, no ServerName, duplicate extension, MinVersion 1.2, pre-cancelled context, no common ALPN, untrusted certificate, corrupted server flight}, driven by a pump thread under the controlled scheduler (go/chan/select/mutex of package tls redirected): all schedules with <= 2 (4) preemptions/free switches/select alternatives x all fragmentations of server flights {whole, 1|rest, half|half, rest|1} with <= 2 (4) deviations x a reactive pump step (forward a CRYPTO chunk and feed the answer back before draining further events) at any WriteData event x one delivery to a wrong encryption level (must be refused and return) x an optional early Close in any round x an optional SetTransportParameters call after Start in any round. Oracle: every Start/HandleData/Close returns (scheduler deadlock detection), no panic; client CRYPTO data is handshake-framed, ClientHello only at Initial with empty legacy_session_id and quic_transport_parameters; per level write secret before read secret, each once; 1-RTT read secret after HandshakeDone; peer transport parameters exactly once and byte-equal; without injection both sides complete with equal state and pairwise equal secrets (HRR followed with exactly 2 hellos); with a failure injected an error is reported and Start fails on unbuildable hellos. Plus (sequential): 3 specs with pre_shared_key appended x QUICConfig.EnableSessionEvents {off, on}: two connections in a row through one session cache, the server issuing a ticket after the first, each driven by the drain-until-QUICNoEvent-then-deliver pump, must both complete. distinct = outcome class"
 			c.Assumptions = []string{"the standard-library QUIC server is the environment and adds no scheduling points", "UQUICConn methods are called from one thread (documented as not concurrency-safe); only context cancellation is concurrent", "bounded: <= k deviations per class"}
 			runAll(c, c23Scenarios(thorough), 0)
 			attachRacePass(c)
